@@ -147,6 +147,8 @@ class Gen:
         if typ in self.inputs and depth < 2:
             parts = []
             for f in self.inputs[typ]:
+                if f.get("deprecated"):
+                    continue
                 req = f["type"].endswith("!") and f.get("default") is None
                 if req or ch.chance("lit.objf", 1, 2):
                     v = self.literal_for(f["type"], depth + 1)
@@ -179,6 +181,10 @@ class Gen:
                 f = {"name": fn, "type": typ, "default": None}
                 fields.append(f)
             self.inputs[name] = fields
+            if k.get("deprecated_inputs"):
+                for f in fields[1:]:          # the first field always stays, so that no input type is left empty
+                    if not f["type"].endswith("!") and ch.chance("s.ifdepr", 1, 3):
+                        f["deprecated"] = True
             for f in fields:
                 base_t = f["type"].replace("[", "").replace("]", "").replace("!", "")
                 if base_t == name:
@@ -215,6 +221,8 @@ class Gen:
                         a = {"name": an, "type": atype, "default": None}
                         if k.get("defaults", True) and ch.chance("s.argdef", 1, 4):
                             a["default"] = self.default_for(atype)
+                        if k.get("deprecated_inputs") and not atype.endswith("!") and ch.chance("s.argdepr", 1, 4):
+                            a["deprecated"] = True
                         args.append(a)
                 fields.append({"name": fn, "type": self.wrap("s.of", base), "args": args})
             self.objects[name] = fields
@@ -248,7 +256,8 @@ class Gen:
     def _field_sdl(self, f, with_desc):
         args = ""
         if f.get("args"):
-            args = "(%s)" % ", ".join("%s: %s%s" % (a["name"], a["type"], (" = " + a["default"]) if a.get("default") is not None else "")
+            args = "(%s)" % ", ".join("%s: %s%s%s" % (a["name"], a["type"], (" = " + a["default"]) if a.get("default") is not None else "",
+                                                       ' @deprecated(reason: "old arg")' if a.get("deprecated") else "")
                                       for a in f["args"])
         dep = ' @deprecated(reason: "old")' if with_desc and self.ch.chance("sdl.depr", 1, 12) else ""
         return "  %s%s: %s%s" % (f["name"], args, f["type"], dep)
@@ -262,7 +271,8 @@ class Gen:
         for n, vals in self.enums.items():
             defs.append({"name": n, "kind": "enum", "sdl": (self._desc(ch, "sdl.d") if wd else "") + "enum %s {\n%s\n}" % (n, "\n".join("  " + v for v in vals))})
         for n, fields in self.inputs.items():
-            body = "\n".join("  %s: %s%s" % (f["name"], f["type"], (" = " + f["default"]) if f.get("default") is not None else "") for f in fields)
+            body = "\n".join("  %s: %s%s%s" % (f["name"], f["type"], (" = " + f["default"]) if f.get("default") is not None else "",
+                                               ' @deprecated(reason: "use something else")' if f.get("deprecated") else "") for f in fields)
             defs.append({"name": n, "kind": "input", "sdl": (self._desc(ch, "sdl.d") if wd else "") + "input %s {\n%s\n}" % (n, body)})
         for n, fields in self.interfaces.items():
             defs.append({"name": n, "kind": "interface", "sdl": "interface %s {\n%s\n}" % (n, "\n".join(self._field_sdl(f, wd) for f in fields))})
@@ -367,6 +377,8 @@ class OpGen:
         ch = self.ch
         parts = []
         for a in f.get("args", []):
+            if a.get("deprecated"):
+                continue
             required = a["type"].endswith("!") and a.get("default") is None
             if not required and not ch.chance("op.optarg", 1, 2):
                 continue
@@ -445,7 +457,7 @@ class OpGen:
 
 DEFAULT_KNOBS = {"max_enums": 3, "max_inputs": 3, "max_objects": 5, "max_fields": 5, "max_args": 3, "max_depth": 3,
                  "max_ops": 4, "max_frags": 6, "custom_scalars": True, "defaults": True, "abstract": True,
-                 "extensions": True, "descriptions": False, "deep_lists": True}
+                 "extensions": True, "descriptions": False, "deep_lists": True, "deprecated_inputs": False}
 
 
 def draw_knobs(ch: Choices, **over) -> Dict[str, Any]:
@@ -539,7 +551,9 @@ def gen_world(ch: Choices, strategy="client", knobs=None, want_subscription=True
     world = {"defs": defs, "ops": ops, "frags": frags, "config": cfg, "aux_files": aux, "strategy": strategy,
              "knobs": {kk: vv for kk, vv in k.items()},
              "shape": {"objects": len(g.objects), "inputs": len(g.inputs), "enums": len(g.enums), "ops": len(ops),
-                       "frags": len(frags), "custom_scalars": list(g.custom_scalars), "abstract": bool(g.interfaces or g.unions)}}
+                       "frags": len(frags), "custom_scalars": list(g.custom_scalars), "abstract": bool(g.interfaces or g.unions),
+                       "deprecated_inputs": any(f.get("deprecated") for fs in g.inputs.values() for f in fs)
+                       or any(a.get("deprecated") for fs in g.objects.values() for f in fs for a in f.get("args", []))}}
     return world
 
 
